@@ -142,11 +142,14 @@ pub fn reused_hashes(w: &World) -> std::collections::BTreeMap<String, (Vec<(u64,
 pub fn check_tags(w: &mut World) -> Option<Violation> {
     let tip = w.height?;
     let by = |w: &mut World, p: Value| w.inst.call("eth_getBlockByNumber", json!([p, false])).to_value();
-    for (tag, h) in [("latest", tip), ("safe", tip), ("finalized", tip), ("earliest", 0), ("pending", tip + 1)] {
+    let dec_tip = tip.to_string();
+    let dec_mid = (tip / 2 + 5).min(tip).to_string();
+    for (tag, h) in [("latest", tip), ("safe", tip), ("finalized", tip), ("earliest", 0), ("pending", tip + 1), (dec_tip.as_str(), tip), (dec_mid.as_str(), (tip / 2 + 5).min(tip))] {
         let a = by(w, json!(tag));
         let b = by(w, json!(format!("0x{:x}", h)));
         if a != b {
-            return Some(Violation::new(format!("block-tag-resolves-wrongly/{tag}"), json!({"tag": tag, "expected_height": h, "by_tag": trunc(&a), "by_number": trunc(&b)})));
+            let label = if tag.chars().all(|c| c.is_ascii_digit()) { "decimal-height" } else { tag };
+            return Some(Violation::new(format!("block-tag-resolves-wrongly/{label}"), json!({"tag": tag, "expected_height": h, "by_tag": trunc(&a), "by_number": trunc(&b)})));
         }
     }
     for (m, p_tag, p_num) in [
@@ -376,7 +379,7 @@ impl Prop for C06 {
         case_of(&g.scenario())
     }
     fn rule(&self) -> String {
-        "case = seeded history (multi-tx blocks with failed / reverted / validation-failed txs, drained pending txs, contract-created contracts, empty blocks, reorg + regrowth, all commit schedules, hash seeds). Monitor after every finalise over the newest blocks and at the end over all heights: contiguity, parentHash, hash<->number, block tx list == accepted receipts in order, tx/receipt/(block,idx)/inscription lookups agree, contiguous log indexes, cumulative gas running sum == block gasUsed, blooms recomputed with an own M3:2048, transactionsRoot recomputed with an own SHA-256 merkle, raw header/block/receipts RLP-decoded with alloy in the harness and compared field by field in order, contract address <-> inscription id both ways. distinct = sha256 of op list; non-trivial = a block with >=2 transactions was checked; at the end the block tags are resolved (latest / safe / finalized = tip, earliest = block 0, pending = the height being built) through eth_getBlockByNumber, the block transaction count, raw header / raw block and eth_getLogs and compared with the same query by number".into()
+        "case = seeded history (multi-tx blocks with failed / reverted / validation-failed txs, drained pending txs, contract-created contracts, empty blocks, reorg + regrowth, all commit schedules, hash seeds). Monitor after every finalise over the newest blocks and at the end over all heights: contiguity, parentHash, hash<->number, block tx list == accepted receipts in order, tx/receipt/(block,idx)/inscription lookups agree, contiguous log indexes, cumulative gas running sum == block gasUsed, blooms recomputed with an own M3:2048, transactionsRoot recomputed with an own SHA-256 merkle, raw header/block/receipts RLP-decoded with alloy in the harness and compared field by field in order, contract address <-> inscription id both ways. distinct = sha256 of op list; non-trivial = a block with >=2 transactions was checked; at the end the block tags are resolved (latest / safe / finalized = tip, earliest = block 0, pending = the height being built, decimal strings = the heights they spell) through eth_getBlockByNumber, the block transaction count, raw header / raw block and eth_getLogs and compared with the same query by number".into()
     }
     fn assumptions(&self) -> Vec<String> {
         vec!["the contract-address -> inscription-id reverse direction is judged only for addresses that carry code".into()]
